@@ -320,7 +320,9 @@ impl<'a> Gen<'a> {
                 },
             },
             Ty::Str => match if depth == 0 { self.r.below(2) } else { self.r.below(9) } {
-                0 => format!("\"{}\"", self.r.pick(&["a", "b1", "x y", "caf\u{e9}", "", "q\\\"t", "l\\n2", "{}"])),
+                0 => format!("\"{}\"", self.r.pick(&["a", "b1", "x y", "caf\u{e9}", "", "q\\\"t", "l\\n2", "{}",
+                    // an escaped backslash followed by a letter that would itself be an escape: the literal is `\` + letter
+                    "C:\\\\new", "a\\\\tb\\\\0", "\\\\r\\n", "\\\\\\\\n", "x\\\\", "\\t\\\\t"])),
                 1 => format!("\"{}\"", self.r.pick(&["foo", "bar_2", "a1b2", "  ", "\u{65e5}"])),
                 2 => match self.syn_expr(need_local) {
                     Some(s) => format!("(source-text {})", s),
@@ -942,12 +944,14 @@ impl<'a> Gen<'a> {
                 if let Some(s) = self.syn_expr(false) {
                     if s.starts_with('@') && !self.in_shorthand {
                         let cap = s[1..].to_string();
-                        let name = self.r.pick(&["def", "ref", "scope2", "val"]).to_string();
+                        // in the order-insensitive fragment every definer of an inherited name precedes its readers: `.val` is
+                        // inherited and read by the stanzas placed before the generated ones, so it is not defined here
+                        let name = if self.opts.fragment { self.r.pick(&["def", "ref", "scope2", "val2"]).to_string() } else { self.r.pick(&["def", "ref", "scope2", "val"]).to_string() };
                         if self.scoped_defined_here.iter().any(|(c, n)| *c == cap && *n == name) {
                             return String::new();
                         }
                         self.feature("scoped-def");
-                        if name == "val" {
+                        if name == "val" || name == "val2" {
                             let v = self.expr(Ty::Str, 1, false);
                             return format!("{}let {}.{} = {}\n", pad, s, name, v);
                         }
@@ -1227,11 +1231,32 @@ pub fn gen_program(r: &mut Rng, pool: &[Pattern], opts: &Opts) -> Program {
             }.to_string());
         }
     }
+    if universal && g.r.chance(1, 3) {
+        // the same edge created by two stanzas, one of them putting an attribute on it right after its own `edge`
+        // statement: the attribute is there whatever the order of the stanzas (C08, C09)
+        g.feature("edge-created-twice-with-attr");
+        let pat = *g.r.pick(&["(identifier)", "(pass_statement)", "(integer)"]);
+        let second = if g.r.chance(1, 2) { "" } else { "\n  attr (@ed3.gn -> @ed3.gn) ek = 1" };
+        stanzas.push(format!("{} @ed1 {{\n  edge @ed1.gn -> @ed1.gn\n}}\n", pat));
+        stanzas.push(format!("{} @ed2 {{\n  edge @ed2.gn -> @ed2.gn\n  attr (@ed2.gn -> @ed2.gn) ek = 1\n}}\n", pat));
+        if g.r.chance(1, 2) {
+            stanzas.push(format!("{} @ed3 {{\n  edge @ed3.gn -> @ed3.gn{}\n}}\n", pat, second));
+        }
+    }
     if opts.scoped_heavy {
         g.feature("scoped-heavy");
         // every identifier links to its parent-most enclosing statement-ish node through captures of other stanzas
         stanzas.push("(identifier) @id {\n  let @id.val = (source-text @id)\n  node @id.def\n}\n".to_string());
         stanzas.push("(call function: (_) @f) @c {\n  let @c.link = @f\n}\n".to_string());
+        if g.r.chance(1, 3) {
+            // a scoped variable whose value is a list / set LITERAL of node calls: every reader sees the same value (one
+            // evaluation per definition), in both modes (C04)
+            g.feature("scoped-literal-of-node-calls");
+            let lit = *g.r.pick(&["[(node)]", "{(node)}", "[(node), (node)]"]);
+            stanzas.push(format!("(identifier) @sl {{\n  let @sl.members = {}\n}}\n", lit));
+            stanzas.push("(identifier) @sr1 {\n  node slr1\n  attr (slr1) members = @sr1.members\n}\n".to_string());
+            stanzas.push("(identifier) @sr2 {\n  node slr2\n  attr (slr2) members = @sr2.members, again = @sr2.members\n}\n".to_string());
+        }
         if nested_definers {
             g.feature("nested-definers");
             stanzas.push("[(function_definition) (class_definition) (if_statement) (for_statement) (block) (call) (argument_list) (list) (assignment)] @nest {\n  let @nest.val = (node-type @nest)\n  let @nest.kind2 = (start-row @nest)\n}\n".to_string());
@@ -1271,6 +1296,15 @@ pub fn gen_program(r: &mut Rng, pool: &[Pattern], opts: &Opts) -> Program {
             for (i, c) in g.captures.clone().iter().enumerate() {
                 let cap = g.use_capture(&c.0);
                 body.push_str(&format!("  node probe_{}\n  attr (probe_{}) cap_{} = {}\n", i, i, c.0.replace('-', "_"), cap));
+                // the same capture read inside nested blocks: it is still the capture of THIS stanza's pattern (C03)
+                let nm = c.0.replace('-', "_");
+                match (i + si) % 4 {
+                    0 => body.push_str(&format!("  for zpf{} in [1] {{\n    node probe_f{}\n    attr (probe_f{}) capf_{} = {}\n  }}\n", i, i, i, nm, cap)),
+                    1 => body.push_str(&format!("  if #true {{\n    node probe_i{}\n    attr (probe_i{}) capi_{} = {}\n  }}\n", i, i, nm, cap)),
+                    2 => body.push_str(&format!("  scan \"a\" {{\n    \"a\" {{\n      node probe_s{}\n      attr (probe_s{}) caps_{} = {}\n    }}\n  }}\n", i, i, nm, cap)),
+                    3 => body.push_str(&format!("  node probe_c{}\n  attr (probe_c{}) capc_{} = [ {} for zpc{} in [1, 2] ]\n", i, i, nm, cap, i)),
+                    _ => {}
+                }
             }
         }
         if g.opts.scoped_heavy && g.r.chance(1, 2) {
